@@ -316,6 +316,9 @@ class Exec:
         return None
 
     def assign(self, tgt, val, env):
+        if isinstance(tgt, ast.Subscript) and isinstance(tgt.value, ast.Name) and isinstance(env.get(tgt.value.id), dict) and isinstance(tgt.slice, ast.Constant) and isinstance(tgt.slice.value, str):
+            env[tgt.value.id] = dict(env[tgt.value.id], **{tgt.slice.value: val})  # kwargs["name"] = value
+            return
         if isinstance(tgt, ast.Name):
             env[tgt.id] = self.name_value(tgt.id, val)
         elif isinstance(tgt, (ast.Tuple, ast.List)):
@@ -428,6 +431,14 @@ class Exec:
             return env[e.func.id].ssa_call(self, [self.ev(a, env) for a in e.args], {k.arg: self.ev(k.value, env) for k in e.keywords if k.arg is not None})
         args = [self.ev(a, env) for a in e.args if not isinstance(a, ast.Starred)]
         kw = {k.arg: self.ev(k.value, env) for k in e.keywords if k.arg is not None}
+        for k in e.keywords:
+            if k.arg is None:  # **mapping: merged when the mapping is a dictionary of this execution, ignored otherwise (empty throw-away arguments)
+                m = self.ev(k.value, env) if isinstance(k.value, ast.Name) and k.value.id in env else None
+                if isinstance(m, dict):
+                    for kk, vv in m.items():
+                        if kk in kw:
+                            raise OutsideSubset(f"keyword {kk} given twice")
+                        kw[kk] = vv
         if f == "math.log":
             if len(args) == 1 and args[0].is_Number:
                 return self.tr.const(f"log{args[0]}")
